@@ -167,7 +167,9 @@ def RBlock.size (b : RBlock α) (rows : Nat) : Nat := rows * b.cols.length
 /-- the per-vector function `func = partial(ufunc_axis_skipna, skipna, ufunc, ufunc_skipna)` -/
 abbrev VecFn (α : Type) := Bool → List (Option α) → Except Err (Option α)
 
-/-- the single cell of a size-one block (the `size_one_unity` shortcut `out[pos] = b`) -/
+/-- the single cell of a size-one block: the `size_one_unity` shortcut `out[pos] = b.reshape(-1)[0]`
+    (since fix 790a40a the element is stored; the pinned tree assigned the block array itself, which
+    NumPy 2 rejects for numeric outputs and stores as an object element otherwise — former finding F16) -/
 def RBlock.onlyCell? (b : RBlock α) : Option (Option α) :=
   match b.cols with
   | [[c]] => some c
